@@ -257,7 +257,7 @@ def learn(test, outcome, env):
         env[norm(test.left) + ' is not None'] = not isnone
 
 
-def paths(cfg, start, stop, env0=None, transfer=None, max_visits=2, limit=50000, valuation=None):
+def paths(cfg, start, stop, env0=None, transfer=None, max_visits=2, limit=50000, valuation=None, emit_blocked=False):
     """Enumerate paths from node `start` until stop(node) (node other than start) or a function exit.
     Each loop head may be visited `max_visits` times.  Returns [(path [nodes], env)].
     env: dict of facts; tests decided by env (through eval_guard) prune infeasible branches."""
@@ -290,6 +290,8 @@ def paths(cfg, start, stop, env0=None, transfer=None, max_visits=2, limit=50000,
         for lab, n in succ:
             c = visits.get(n.id, 0)
             if n.kind == 'loop' and c >= max_visits:
+                if emit_blocked:
+                    out.append((list(path) + [n], env if lab not in (True, False) else env))
                 continue
             if c >= max_visits + 1:
                 continue
